@@ -62,8 +62,15 @@ def observe(spec, inputs):
 
             def interp(x):
                 return {l: (v if spec["form"] == "int" else (v, v)) for l, v in x.items()}
-            f(interp(inputs["x1"]))
-            r = f(interp(inputs["x2"]))
+            if spec.get("samedict"):
+                dct = interp(inputs["x1"])
+                f(dct)
+                dct.clear()
+                dct.update(interp(inputs["x2"]))
+                r = f(dct)
+            else:
+                f(interp(inputs["x1"]))
+                r = f(interp(inputs["x2"]))
             r = r[m.id] if spec["op"] == "evaluate_propositions" else r
             out["r2"] = [int(r.lower), int(r.upper)]
             return out
